@@ -242,6 +242,14 @@ func customMD(ctx context.Context) (map[string][]string, string, string) {
 	id, plan := "", ""
 	md, _ := metadata.FromIncomingContext(ctx)
 	for k, vs := range md {
+		switch k {
+		case "connection", "keep-alive", "proxy-connection", "transfer-encoding", "upgrade":
+			// fields of the client's HTTP/1 connection are not metadata of
+			// the call: a direct call never carries them, so seeing one is a
+			// difference
+			out["(hop-by-hop) "+k] = append([]string(nil), vs...)
+			continue
+		}
 		if !strings.HasPrefix(k, "x-vf-") {
 			continue
 		}
